@@ -15,6 +15,9 @@ struct Case {
     init: Listing,
     patch: String,
     tag: String,
+    /// what the document says, as the generator wrote it (payload of every operation; None when the
+    /// text was mutated or written by hand): the parser must return exactly this
+    intended: Option<Vec<PatchOp>>,
 }
 
 // ------------------------------------------------------------------ independent interpreter
@@ -322,11 +325,25 @@ fn run_impl(rt: &tokio::runtime::Runtime, c: &Case) -> Obs {
             }
         },
     }
+    // ---- the parser must return what the document says (independent of the implementation's own parse)
+    if viol.is_none() {
+        if let Some(want) = &c.intended {
+            match Patch::parse(&c.patch) {
+                Err(e) => viol = Some((format!("a well-formed generated document was rejected: {e}"), "parse_rejects_wellformed".into())),
+                Ok(p) => {
+                    if p.ops().len() != want.len() || !p.ops().iter().zip(want.iter()).all(|(a, b)| same_payload(a, b)) {
+                        let i = p.ops().iter().zip(want.iter()).position(|(a, b)| !same_payload(a, b)).unwrap_or(want.len().min(p.ops().len()));
+                        viol = Some((format!("the parser returned other operations than the document states (operation {i}: got {:?}, the text says {:?})", p.ops().get(i), want.get(i)), "parse_differs_from_document".into()));
+                    }
+                }
+            }
+        }
+    }
     Obs { code, changed, before, after, viol }
 }
 
 // ------------------------------------------------------------------ generators
-const WORDS: [&str; 14] = ["alpha", "beta", "gamma", "", "x", "  indented", "+plus", "-minus", "*** stars", "é€", "@@ at", "tab\there", "same", "same"];
+const WORDS: [&str; 24] = ["alpha", "beta", "gamma", "", "x", "  indented", "+plus", "-minus", "*** stars", "é€", "@@ at", "tab\there", "same", "same", "same ", "same\t", "trail", "trail ", "trail  \t", " ", "\t", "x ", "é€\u{a0}", "alpha\u{2003}"];
 const PATHS: [&str; 12] = ["a.txt", "b.txt", "c.md", "d/x.txt", "d/y.txt", "d/e/z.txt", "sp ace.txt", "ü.txt", "back\\slash.txt", "n/o/p/q.txt", ".rip/note", "a.txt.bak"];
 
 fn gen_text(r: &mut Rng) -> Vec<u8> {
@@ -408,7 +425,7 @@ fn path_variant(r: &mut Rng, p: &str) -> String {
     }
 }
 /// lines of one op derived from the simulated state so that it applies
-fn gen_op(r: &mut Rng, sim: &mut Sim) -> Vec<String> {
+fn gen_op(r: &mut Rng, sim: &mut Sim) -> (Vec<String>, PatchOp) {
     let existing: Vec<Comps> = sim.files.keys().filter(|c| c.first().map(|x| x.as_slice()) != Some(b".rip")).cloned().collect();
     let pick_existing = |r: &mut Rng| -> Option<String> { if existing.is_empty() { None } else { Some(show_comps(r.pick(&existing))) } };
     let mut out = vec![];
@@ -433,11 +450,15 @@ fn gen_op(r: &mut Rng, sim: &mut Sim) -> Vec<String> {
         if content == "\n" {
             content.clear();
         }
-        let _ = spec_op(sim, &PatchOp::AddFile { path: p.into(), content });
+        let op = PatchOp::AddFile { path: p.into(), content };
+        let _ = spec_op(sim, &op);
+        return (out, op);
     } else if kind < 5 {
         let p = if r.chance(1, 6) { "missing.txt".to_string() } else { pick_existing(r).unwrap() };
         out.push(format!("*** Delete File: {}", path_variant(r, &p)));
-        let _ = spec_op(sim, &PatchOp::DeleteFile { path: p.into() });
+        let op = PatchOp::DeleteFile { path: p.into() };
+        let _ = spec_op(sim, &op);
+        return (out, op);
     } else {
         let p = if r.chance(1, 10) { "missing.txt".to_string() } else { pick_existing(r).unwrap() };
         out.push(format!("*** Update File: {}", path_variant(r, &p)));
@@ -505,9 +526,10 @@ fn gen_op(r: &mut Rng, sim: &mut Sim) -> Vec<String> {
             }
             hunks.push(rip_workspace::PatchHunk { before, after });
         }
-        let _ = spec_op(sim, &PatchOp::UpdateFile { path: p.into(), moved_to: mv.map(|m| m.into()), hunks });
+        let op = PatchOp::UpdateFile { path: p.into(), moved_to: mv.map(|m| m.into()), hunks };
+        let _ = spec_op(sim, &op);
+        (out, op)
     }
-    out
 }
 fn mutate(r: &mut Rng, lines: &mut Vec<String>) -> &'static str {
     if lines.len() < 3 {
@@ -596,11 +618,12 @@ fn gen_case(r: &mut Rng) -> Case {
         if r.chance(2, 3) {
             ls.insert(0, "*** Begin Patch".into());
         }
-        return Case { init, patch: ls.join("\n"), tag: "malformed".into() };
+        return Case { init, patch: ls.join("\n"), tag: "malformed".into(), intended: None };
     }
     let mut sim = Sim::from_listing(&init);
     let mut lines = vec!["*** Begin Patch".to_string()];
     let mut tag = String::from("valid");
+    let mut intended: Option<Vec<PatchOp>> = Some(vec![]);
     if mode <= 3 {
         // file replaced by a directory inside one patch (delete or move away, then add below it)
         let files: Vec<Comps> = sim.files.keys().cloned().collect();
@@ -619,13 +642,19 @@ fn gen_case(r: &mut Rng) -> Case {
             lines.push(format!("*** Add File: {sub}"));
             lines.push("+inner".into());
             tag = "file-to-dir".into();
+            intended = None;
         }
     }
     let n = if (4..=7).contains(&mode) { r.range(3, 7) } else { r.range(1, 4) };
     for _ in 0..n {
-        lines.extend(gen_op(r, &mut sim));
+        let (ls, op) = gen_op(r, &mut sim);
+        lines.extend(ls);
+        if let Some(v) = intended.as_mut() {
+            v.push(op);
+        }
     }
     if (4..=7).contains(&mode) {
+        intended = None;
         // deep rollback: several operations that apply (same paths re-used), then one that cannot
         tag = "deep-rollback".into();
         match r.below(5) {
@@ -671,6 +700,7 @@ fn gen_case(r: &mut Rng) -> Case {
     if r.chance(1, 2) {
         let m = mutate(r, &mut lines);
         tag = format!("{tag}+{m}");
+        intended = None;
     }
     let eol = if r.chance(1, 8) { "\r\n" } else { "\n" };
     let mut patch = lines.join(eol);
@@ -679,15 +709,77 @@ fn gen_case(r: &mut Rng) -> Case {
     }
     if r.chance(1, 20) {
         patch.push_str("trailing garbage after the footer\n");
+        intended = None;
     }
-    Case { init, patch, tag }
+    // str::lines drops a `\r` before the line break: a payload line ending in `\r` is not what the text says
+    let ends_cr = |l: &String| l.ends_with('\r');
+    if let Some(v) = &intended {
+        let bad = v.iter().any(|op| match op {
+            PatchOp::AddFile { content, .. } => content.split('\n').any(|l| l.ends_with('\r')),
+            PatchOp::UpdateFile { hunks, .. } => hunks.iter().any(|h| h.before.iter().any(ends_cr) || h.after.iter().any(ends_cr)),
+            _ => false,
+        });
+        if bad {
+            intended = None;
+        }
+    }
+    Case { init, patch, tag, intended }
 }
 
+fn intended_json(ops: &[PatchOp]) -> serde_json::Value {
+    serde_json::Value::Array(
+        ops.iter()
+            .map(|op| match op {
+                PatchOp::AddFile { content, .. } => json!({"add": content}),
+                PatchOp::DeleteFile { .. } => json!({"delete": true}),
+                PatchOp::UpdateFile { moved_to, hunks, .. } => json!({"update": hunks.iter().map(|h| json!({"before": h.before, "after": h.after})).collect::<Vec<_>>(), "moved": moved_to.is_some()}),
+            })
+            .collect(),
+    )
+}
+fn intended_from_json(v: &serde_json::Value) -> Option<Vec<PatchOp>> {
+    let strs = |x: &serde_json::Value| -> Vec<String> { x.as_array().map(|a| a.iter().map(|s| s.as_str().unwrap_or("").to_string()).collect()).unwrap_or_default() };
+    let arr = v.as_array()?;
+    Some(
+        arr.iter()
+            .map(|o| {
+                if let Some(c) = o.get("add") {
+                    PatchOp::AddFile { path: "x".into(), content: c.as_str().unwrap_or("").to_string() }
+                } else if let Some(hs) = o.get("update") {
+                    PatchOp::UpdateFile {
+                        path: "x".into(),
+                        moved_to: if o["moved"].as_bool().unwrap_or(false) { Some("y".into()) } else { None },
+                        hunks: hs.as_array().map(|a| a.iter().map(|h| rip_workspace::PatchHunk { before: strs(&h["before"]), after: strs(&h["after"]) }).collect()).unwrap_or_default(),
+                    }
+                } else {
+                    PatchOp::DeleteFile { path: "x".into() }
+                }
+            })
+            .collect(),
+    )
+}
+/// same kind and same payload (add content / move flag / hunks), paths not compared (spelling variants)
+fn same_payload(a: &PatchOp, b: &PatchOp) -> bool {
+    match (a, b) {
+        (PatchOp::AddFile { content: c1, .. }, PatchOp::AddFile { content: c2, .. }) => c1 == c2,
+        (PatchOp::DeleteFile { .. }, PatchOp::DeleteFile { .. }) => true,
+        (PatchOp::UpdateFile { moved_to: m1, hunks: h1, .. }, PatchOp::UpdateFile { moved_to: m2, hunks: h2, .. }) => m1.is_some() == m2.is_some() && h1 == h2,
+        _ => false,
+    }
+}
 fn case_json(c: &Case) -> serde_json::Value {
-    json!({"init": listing_json(&c.init), "patch": c.patch, "tag": c.tag})
+    match &c.intended {
+        Some(ops) => json!({"init": listing_json(&c.init), "patch": c.patch, "tag": c.tag, "intended": intended_json(ops)}),
+        None => json!({"init": listing_json(&c.init), "patch": c.patch, "tag": c.tag}),
+    }
 }
 fn case_from_json(v: &serde_json::Value) -> Case {
-    Case { init: listing_from_json(&v["init"]), patch: v["patch"].as_str().unwrap_or("").to_string(), tag: v["tag"].as_str().unwrap_or("corpus").to_string() }
+    Case {
+        init: listing_from_json(&v["init"]),
+        patch: v["patch"].as_str().unwrap_or("").to_string(),
+        tag: v["tag"].as_str().unwrap_or("corpus").to_string(),
+        intended: v.get("intended").and_then(intended_from_json),
+    }
 }
 fn corpus(dir: &std::path::Path) -> Vec<Case> {
     let mut v = vec![];
@@ -756,7 +848,7 @@ fn main() {
     let fixed = a.extra.get("fixed").map(|v| v != "0").unwrap_or(true);
     let verif_root = a.extra.get("verif").cloned().unwrap_or_else(|| env!("CARGO_MANIFEST_DIR").to_string() + "/..");
     let mut res = RunResult::new("C12", &a);
-    res.rule = "cases = (workspace tree, patch text): patches derived from the simulated workspace so that hunks apply (add/update/move/delete, 1-5 ops, same path re-used, file replaced by a directory), a deep-rollback family (3-7 applying operations followed by one that cannot), then one text-level mutation in half of them (16 kinds), path spellings (./, //, /./, trailing / and /., unicode blanks, NUL), CRLF/LF/mixed/no-final-newline/empty/non-UTF-8 files, plus a malformed stream; non-trivial = at least one op parsed and the workspace non-empty".into();
+    res.rule = "cases = (workspace tree, patch text): patches derived from the simulated workspace so that hunks apply (add/update/move/delete, 1-5 ops, same path re-used, file replaced by a directory), a deep-rollback family (3-7 applying operations followed by one that cannot), then one text-level mutation in half of them (16 kinds), path spellings (./, //, /./, trailing / and /., unicode blanks, NUL), CRLF/LF/mixed/no-final-newline/empty/non-UTF-8 files, lines ending in blanks / tabs / unicode blanks and lines differing only in trailing blanks, plus a malformed stream; non-trivial = at least one op parsed and the workspace non-empty".into();
     let n = if a.thorough() { 12000 } else { 900 };
     let rt = tokio::runtime::Builder::new_current_thread().enable_all().build().unwrap();
     let mut r = Rng::new(a.seed);
